@@ -30,6 +30,9 @@ pub enum DOp {
     /// raw vector only: two writer threads are made to allocate the same bucket at the same time
     /// (both parked right before the bucket CAS, then released together)
     Race { extra: u8 },
+    /// tick until the matcher reports that it is idle (bounded), then the streams nothing can
+    /// reach any more must be gone
+    Settle,
 }
 
 #[derive(Clone, Debug, Serialize, Deserialize, Hash)]
@@ -41,22 +44,25 @@ pub struct DropCase {
     pub threads: u8,
     pub ops: Vec<DOp>,
     pub drop_on_thread: bool,
+    /// items are plain `u64`s (no drop glue): only the column blocks are watched
+    #[serde(default)]
+    pub plain: bool,
 }
 
-struct Lying {
-    inner: std::vec::IntoIter<Tracked>,
+struct Lying<T = Tracked> {
+    inner: std::vec::IntoIter<T>,
     reported: usize,
 }
-impl Iterator for Lying {
-    type Item = Tracked;
-    fn next(&mut self) -> Option<Tracked> {
+impl<T> Iterator for Lying<T> {
+    type Item = T;
+    fn next(&mut self) -> Option<T> {
         self.inner.next()
     }
     fn size_hint(&self) -> (usize, Option<usize>) {
         (self.reported, Some(self.reported))
     }
 }
-impl ExactSizeIterator for Lying {
+impl<T> ExactSizeIterator for Lying<T> {
     fn len(&self) -> usize {
         self.reported
     }
@@ -65,6 +71,8 @@ impl ExactSizeIterator for Lying {
 struct St {
     /// ids handed to push or yielded... (all created ids must end with exactly one drop)
     created: Vec<u64>,
+    /// (id, stream) of everything created
+    created_in: Vec<(u64, u32)>,
     /// ids whose entry was published (fill completed), with the stream they live in
     published: Vec<(u64, u32)>,
     fails: Vec<(String, String)>,
@@ -82,6 +90,7 @@ fn do_push(push: &dyn Fn(Tracked, &dyn Fn(&Tracked, &mut [Utf32String])) -> u32,
     let t = Tracked::new(stream);
     let id = t.id;
     st.created.push(id);
+    st.created_in.push((id, stream));
     let texts: Vec<String> = (0..cols).map(|c| band_text(text.wrapping_add(c as u16))).collect();
     let r = guarded(|| {
         push(t, &|_, cs| {
@@ -109,6 +118,7 @@ fn do_extend(extend: &dyn Fn(Lying, &dyn Fn(&Tracked, &mut [Utf32String])), stre
     let items: Vec<Tracked> = (0..n).map(|_| Tracked::new(stream)).collect();
     let ids: Vec<u64> = items.iter().map(|t| t.id).collect();
     st.created.extend(&ids);
+    st.created_in.extend(ids.iter().map(|&id| (id, stream)));
     let reported = (n as i64 + lie as i64).max(0) as usize;
     let texts: Vec<String> = (0..cols).map(|c| band_text(text.wrapping_add(c as u16 * 3))).collect();
     let filled = std::cell::RefCell::new(Vec::new());
@@ -177,6 +187,7 @@ fn race(v: &Arc<RawVec<Tracked>>, cols: usize, extra: u8, st: &mut St) {
             .map(|j| {
                 let t = Tracked::new(0);
                 st.created.push(t.id);
+                st.created_in.push((t.id, 0));
                 st.published.push((t.id, 0));
                 (t, (0..cols).map(|c| band_text(j as u16 * 5 + c as u16)).collect())
             })
@@ -219,13 +230,134 @@ fn check_alive(get: &dyn Fn(u32) -> Option<(u64, bool, usize)>, count: u32, st: 
     }
 }
 
+/// plain `u64` items (no drop glue): the same histories without panics; only the column blocks are watched
+fn run_plain(c: &DropCase, st: &mut St, beyond: &mut bool, had_restart: &mut bool) {
+    let cols = c.columns.max(1) as usize;
+    let texts_of = |text: u16| -> Vec<String> { (0..cols).map(|k| band_text(text.wrapping_add(k as u16))).collect() };
+    st.labels.push("plain-items");
+    if !c.nucleo {
+        let v: RawVec<u64> = RawVec::with_capacity(c.capacity as u32, cols as u32);
+        for op in &c.ops {
+            match op {
+                DOp::Push { text, .. } => {
+                    let t = texts_of(*text);
+                    v.push(1, |_, cs| fill(&t, cs));
+                }
+                DOp::Extend { n, lie, text, .. } => {
+                    let t = texts_of(*text);
+                    let items: Vec<u64> = (0..*n as u64).collect();
+                    let reported = *n as usize + (*lie).max(0) as usize;
+                    if *lie > 0 {
+                        st.labels.push("lying-iterator(more)");
+                    }
+                    v.extend(Lying { inner: items.into_iter(), reported }, |_, cs| fill(&t, cs));
+                }
+                _ => {}
+            }
+            if v.count() > 32 {
+                *beyond = true;
+            }
+        }
+        if c.drop_on_thread {
+            std::thread::spawn(move || drop(v)).join().ok();
+        } else {
+            drop(v);
+        }
+    } else {
+        let mut nuc: Nucleo<u64> = Nucleo::new(Config::DEFAULT, Arc::new(|| {}), Some(c.threads.max(1) as usize), cols as u32);
+        let mut handles: Vec<Injector<u64>> = vec![nuc.injector()];
+        for op in &c.ops {
+            match op {
+                DOp::Push { text, .. } => {
+                    if let Some(inj) = handles.last() {
+                        let t = texts_of(*text);
+                        inj.push(1, |_, cs| fill(&t, cs));
+                    }
+                }
+                DOp::Extend { n, lie, text, .. } => {
+                    if let Some(inj) = handles.last() {
+                        let t = texts_of(*text);
+                        let items: Vec<u64> = (0..*n as u64).collect();
+                        let reported = *n as usize + (*lie).max(0) as usize;
+                        if *lie > 0 {
+                            st.labels.push("lying-iterator(more)");
+                        }
+                        inj.extend(Lying { inner: items.into_iter(), reported }, |_, cs| fill(&t, cs));
+                    }
+                }
+                DOp::Tick => {
+                    let _ = nuc.tick(10);
+                }
+                DOp::Settle => {
+                    for _ in 0..300 {
+                        if !nuc.tick(10).running {
+                            break;
+                        }
+                    }
+                }
+                DOp::Reparse { sel } => {
+                    let text = ["a", "b", "ab", "", "c"][*sel as usize % 5];
+                    nuc.pattern.reparse(0, text, CaseMatching::Smart, Normalization::Smart, false);
+                }
+                DOp::Restart { clear } => {
+                    nuc.restart(*clear);
+                    *had_restart = true;
+                }
+                DOp::NewInjector => {
+                    if handles.len() < 6 {
+                        handles.push(nuc.injector());
+                    }
+                }
+                DOp::CloneInjector { sel } => {
+                    if !handles.is_empty() && handles.len() < 6 {
+                        let cl = handles[*sel as usize % handles.len()].clone();
+                        handles.push(cl);
+                    }
+                }
+                DOp::DropInjector { sel, on_thread } => {
+                    if !handles.is_empty() {
+                        let h = handles.remove(*sel as usize % handles.len());
+                        if *on_thread {
+                            std::thread::spawn(move || drop(h)).join().ok();
+                        } else {
+                            drop(h);
+                        }
+                    }
+                }
+                DOp::Get { .. } | DOp::Race { .. } => {}
+            }
+            if handles.iter().any(|h| h.injected_items() > 32) {
+                *beyond = true;
+            }
+        }
+        let _ = nuc.tick(50);
+        if c.drop_on_thread {
+            std::thread::spawn(move || {
+                drop(handles);
+                drop(nuc);
+            })
+            .join()
+            .ok();
+        } else {
+            drop(nuc);
+            drop(handles);
+        }
+    }
+}
+
 fn fixed_templates() -> Vec<DropCase> {
         vec![
             // lying extend that skips whole buckets, then a push that lands far away
-            DropCase { nucleo: false, capacity: 32, columns: 1, threads: 1, ops: vec![DOp::Extend { n: 3, lie: 6000, panic_at: 200, text: 1 }, DOp::Push { text: 2, panic: false }, DOp::Get { sel: 0 }], drop_on_thread: false },
-            DropCase { nucleo: true, capacity: 0, columns: 2, threads: 2, ops: vec![DOp::Push { text: 1, panic: false }, DOp::Extend { n: 2, lie: 5000, panic_at: 200, text: 1 }, DOp::Push { text: 2, panic: false }, DOp::Tick, DOp::Restart { clear: false }, DOp::Tick], drop_on_thread: true },
-            DropCase { nucleo: false, capacity: 0, columns: 2, threads: 1, ops: vec![DOp::Extend { n: 40, lie: 0, panic_at: 35, text: 1 }, DOp::Push { text: 2, panic: true }, DOp::Extend { n: 5, lie: -2, panic_at: 200, text: 3 }, DOp::Extend { n: 2, lie: -2, panic_at: 200, text: 3 }], drop_on_thread: true },
-            DropCase { nucleo: true, capacity: 0, columns: 1, threads: 1, ops: vec![DOp::Push { text: 1, panic: false }, DOp::NewInjector, DOp::Tick, DOp::Restart { clear: true }, DOp::NewInjector, DOp::Push { text: 1, panic: false }, DOp::Tick, DOp::DropInjector { sel: 0, on_thread: true }, DOp::Restart { clear: false }, DOp::Restart { clear: false }, DOp::Tick], drop_on_thread: false },
+            DropCase { nucleo: false, capacity: 32, columns: 1, threads: 1, ops: vec![DOp::Extend { n: 3, lie: 6000, panic_at: 200, text: 1 }, DOp::Push { text: 2, panic: false }, DOp::Get { sel: 0 }], drop_on_thread: false, plain: false },
+            DropCase { nucleo: true, capacity: 0, columns: 2, threads: 2, ops: vec![DOp::Push { text: 1, panic: false }, DOp::Extend { n: 2, lie: 5000, panic_at: 200, text: 1 }, DOp::Push { text: 2, panic: false }, DOp::Tick, DOp::Restart { clear: false }, DOp::Tick], drop_on_thread: true, plain: false },
+            DropCase { nucleo: false, capacity: 0, columns: 2, threads: 1, ops: vec![DOp::Extend { n: 40, lie: 0, panic_at: 35, text: 1 }, DOp::Push { text: 2, panic: true }, DOp::Extend { n: 5, lie: -2, panic_at: 200, text: 3 }, DOp::Extend { n: 2, lie: -2, panic_at: 200, text: 3 }], drop_on_thread: true, plain: false },
+            // the old stream has to go once matcher, snapshot and injectors have left it (empty and non-empty pattern)
+            DropCase { nucleo: true, capacity: 0, columns: 1, threads: 1, ops: vec![DOp::Extend { n: 40, lie: 0, panic_at: 200, text: 1 }, DOp::Settle, DOp::DropInjector { sel: 0, on_thread: false }, DOp::Restart { clear: false }, DOp::Settle, DOp::NewInjector, DOp::Push { text: 1, panic: false }, DOp::Settle], drop_on_thread: false, plain: false },
+            DropCase { nucleo: true, capacity: 0, columns: 2, threads: 2, ops: vec![DOp::Reparse { sel: 0 }, DOp::Extend { n: 40, lie: 0, panic_at: 200, text: 1 }, DOp::Settle, DOp::Restart { clear: true }, DOp::Settle, DOp::DropInjector { sel: 0, on_thread: true }, DOp::Settle], drop_on_thread: true, plain: false },
+            // plain items: only the columns own memory
+            DropCase { nucleo: false, capacity: 0, columns: 2, threads: 1, ops: vec![DOp::Extend { n: 60, lie: 0, panic_at: 200, text: 1 }, DOp::Push { text: 2, panic: false }], drop_on_thread: false, plain: true },
+            DropCase { nucleo: true, capacity: 0, columns: 1, threads: 1, ops: vec![DOp::Extend { n: 60, lie: 3, panic_at: 200, text: 1 }, DOp::Push { text: 2, panic: false }, DOp::Settle, DOp::Restart { clear: true }, DOp::NewInjector, DOp::Push { text: 2, panic: false }, DOp::Settle], drop_on_thread: true, plain: true },
+            DropCase { nucleo: true, capacity: 0, columns: 1, threads: 1, ops: vec![DOp::Push { text: 1, panic: false }, DOp::NewInjector, DOp::Tick, DOp::Restart { clear: true }, DOp::NewInjector, DOp::Push { text: 1, panic: false }, DOp::Tick, DOp::DropInjector { sel: 0, on_thread: true }, DOp::Restart { clear: false }, DOp::Restart { clear: false }, DOp::Tick], drop_on_thread: false, plain: false },
         ]
     }
 
@@ -256,7 +388,7 @@ impl Check for C11 {
         let mut v = fixed_templates();
         for capacity in [0u16, 33, 100] {
             for pre in [0u8, 20, 40] {
-                v.push(DropCase { nucleo: false, capacity, columns: 1, threads: 1, ops: vec![DOp::Extend { n: pre, lie: 0, panic_at: 200, text: 3 }, DOp::Race { extra: 3 }, DOp::Push { text: 1, panic: false }, DOp::Race { extra: 0 }], drop_on_thread: false });
+                v.push(DropCase { nucleo: false, capacity, columns: 1, threads: 1, ops: vec![DOp::Extend { n: pre, lie: 0, panic_at: 200, text: 3 }, DOp::Race { extra: 3 }, DOp::Push { text: 1, panic: false }, DOp::Race { extra: 0 }], drop_on_thread: false, plain: false });
             }
         }
         v
@@ -273,8 +405,9 @@ impl Check for C11 {
             8 => (any::<u8>(), any::<bool>()).prop_map(|(sel, on_thread)| DOp::DropInjector { sel, on_thread }),
             5 => any::<u8>().prop_map(|sel| DOp::Reparse { sel }),
             6 => any::<u8>().prop_map(|extra| DOp::Race { extra }),
+            6 => Just(DOp::Settle),
         ];
-        (any::<bool>(), proptest::sample::select(vec![0u16, 1, 32, 33, 100]), 1u8..=3, 1u8..=3, proptest::collection::vec(op, 1..=18), any::<bool>()).prop_map(|(nucleo, capacity, columns, threads, ops, drop_on_thread)| DropCase { nucleo, capacity, columns, threads, ops, drop_on_thread }).boxed()
+        (any::<bool>(), proptest::sample::select(vec![0u16, 1, 32, 33, 100]), 1u8..=3, 1u8..=3, proptest::collection::vec(op, 1..=18), any::<bool>(), proptest::bool::weighted(0.15)).prop_map(|(nucleo, capacity, columns, threads, ops, drop_on_thread, plain)| DropCase { nucleo, capacity, columns, threads, ops, drop_on_thread, plain }).boxed()
     }
     fn run(&self, c: &DropCase) -> Outcome {
         let mut out = Outcome::default();
@@ -282,10 +415,12 @@ impl Check for C11 {
         payload::reset_ledger();
         let band0 = BAND_LIVE.load(Ordering::SeqCst);
         let cols = c.columns.max(1) as usize;
-        let mut st = St { created: vec![], published: vec![], fails: vec![], labels: vec![], any_panic: false };
+        let mut st = St { created: vec![], created_in: vec![], published: vec![], fails: vec![], labels: vec![], any_panic: false };
         let mut beyond_first_bucket = false;
         let mut had_restart = false;
-        if !c.nucleo {
+        if c.plain {
+            run_plain(c, &mut st, &mut beyond_first_bucket, &mut had_restart);
+        } else if !c.nucleo {
             let v: Arc<RawVec<Tracked>> = Arc::new(RawVec::with_capacity(c.capacity as u32, cols as u32));
             for (k, op) in c.ops.iter().enumerate() {
                 let when = format!("after op #{k} {op:?}");
@@ -320,6 +455,8 @@ impl Check for C11 {
             let mut stream = 0u32;
             let mut handles: Vec<(Injector<Tracked>, u32)> = vec![(nuc.injector(), 0)];
             let mut text = String::new();
+            // a tick after the last restart found the worker idle: matcher, worker and snapshot are on the current stream
+            let mut settled = true;
             for (k, op) in c.ops.iter().enumerate() {
                 let when = format!("after op #{k} {op:?}");
                 match op {
@@ -335,7 +472,17 @@ impl Check for C11 {
                     }
                     DOp::Get { .. } | DOp::Race { .. } => {}
                     DOp::Tick => {
-                        let _ = nuc.tick(10);
+                        if !nuc.tick(10).running {
+                            settled = true;
+                        }
+                    }
+                    DOp::Settle => {
+                        for _ in 0..300 {
+                            if !nuc.tick(10).running {
+                                settled = true;
+                                break;
+                            }
+                        }
                     }
                     DOp::Reparse { sel } => {
                         text = ["a", "b", "ab", "", "c"][*sel as usize % 5].to_string();
@@ -345,6 +492,7 @@ impl Check for C11 {
                         nuc.restart(*clear);
                         stream += 1;
                         had_restart = true;
+                        settled = false;
                     }
                     DOp::NewInjector => {
                         if handles.len() < 6 {
@@ -383,7 +531,26 @@ impl Check for C11 {
                         }
                     }
                 }
-                // a stream without any handle left must be gone (restart + all old injectors dropped + worker moved on)
+                // a stream without any handle left must be gone (restart + all old injectors dropped + matcher and snapshot moved on)
+                if settled && stream > 0 {
+                    let held: HashSet<u32> = handles.iter().map(|h| h.1).collect();
+                    let gone: Vec<u64> = st.created_in.iter().filter(|(_, s)| *s < stream && !held.contains(s)).map(|p| p.0).collect();
+                    if !gone.is_empty() {
+                        let mut left = 0;
+                        for _ in 0..100 {
+                            let led = payload::ledger_snapshot();
+                            left = gone.iter().filter(|id| led.get(id).copied().unwrap_or(0) == 0).count();
+                            if left == 0 {
+                                break;
+                            }
+                            std::thread::sleep(Duration::from_millis(2));
+                        }
+                        st.labels.push("unreachable-stream-checked");
+                        if left > 0 {
+                            st.fails.push(("unreachable-stream-alive".into(), format!("{when}: {left} of {} items of earlier streams are still not destroyed although the matcher was restarted, a later tick found it idle (so matcher and snapshot are on the current stream) and no injector of those streams is left", gone.len())));
+                        }
+                    }
+                }
             }
             let _ = nuc.tick(50);
             let r = if c.drop_on_thread {
